@@ -327,7 +327,10 @@ func run(c *core.Ctx) {
 						}
 						if err == nil {
 							// pass-through: decoded content equals built content (identical bytes in every string/bytes position)
-							if univ.Snapshot(m2) != univ.Snapshot(m) {
+							// (two slots writing a message value under the same map key are merged by
+							// the builder but are two entries on the wire, where the last one
+							// replaces the first: the built message is no reference for those)
+							if !sameMapKeyTwice(slots) && univ.Snapshot(m2) != univ.Snapshot(m) {
 								c.Violation(sig(fmt.Sprintf("binary pass-through changed content nolazy=%v", nolazy)), map[string]any{"built": univ.Snapshot(m), "decoded": univ.Snapshot(m2)})
 							}
 						}
@@ -440,4 +443,15 @@ func substitute(s *univ.Slot, prefix string, toks *[][2]string) *univ.Slot {
 	}
 	c.Sub = substitute(s.Sub, prefix, toks)
 	return &c
+}
+
+func sameMapKeyTwice(slots []*univ.Slot) bool {
+	for i, a := range slots {
+		for _, b := range slots[i+1:] {
+			if a.Op == univ.OpMapMsg && b.Op == univ.OpMapMsg && a.Num == b.Num && a.Ext == b.Ext && a.Key.Interface() == b.Key.Interface() {
+				return true
+			}
+		}
+	}
+	return false
 }
